@@ -381,6 +381,11 @@ def ready_without_wake(sc):
             parked[wid] = (st["i"], op)
         else:
             parked.pop(wid, None)
+            if was is not None and was[1] == op and o == "poll_ready" and isinstance(res, str) and res.startswith("E("):
+                # SendRequest::poll_ready waits for a concurrency slot; a connection error that makes the wait moot (a peer GOAWAY
+                # that does not fail the queued request itself) is not "what it waits for": the task is woken when the queued
+                # request opens or fails.  Not demanded by the property, not judged.
+                continue
             if was is not None and was[1] == op:
                 return {"step": st["i"], "why": "a poll that had parked its waker is Ready now although the waker never fired in between "
                                                 "(the event that completed it did not wake the task)", "op": op, "parked_at": was[0],
